@@ -8,22 +8,22 @@
 EXTENDS RayStep, Json, IOUtils, TLC
 Trace == JsonDeserialize(IOEnv.TRACE_FILE)
 Mode == IF "RAYSTEP_MODE" \in DOMAIN IOEnv THEN IOEnv.RAYSTEP_MODE ELSE "both"
-VARIABLES l, prev
-vars == <<l, prev>>
+VARIABLES tpos, tprev
+vars == <<tpos, tprev>>
 NoPrev == [ray |-> -1]
 Chained(e) == \/ e.first
-              \/ /\ prev.ray = e.ray
-                 /\ prev.p = e.p0 /\ prev.d = e.d0 /\ prev.o = e.o0 /\ prev.i = e.i0
+              \/ /\ tprev.ray = e.ray
+                 /\ tprev.p = e.p0 /\ tprev.d = e.d0 /\ tprev.o = e.o0 /\ tprev.i = e.i0
 Judge(e) ==
   (IF Chained(e) THEN {} ELSE {"chain"}) \cup
   (IF Mode \in {"ray", "both"} THEN JudgeRay(e) ELSE {}) \cup
   (IF Mode \in {"intensity", "both"} THEN JudgeIntensity(e) ELSE {})
-Init == l = 0 /\ prev = NoPrev
-Next == /\ l < Len(Trace)
-        /\ LET e == Trace[l + 1] IN
+Init == tpos = 0 /\ tprev = NoPrev
+Next == /\ tpos < Len(Trace)
+        /\ LET e == Trace[tpos + 1] IN
              /\ PrintT(<<"V", e.id, Judge(e)>>)
-             /\ prev' = [ray |-> e.ray, p |-> e.p, d |-> e.d, o |-> e.o, i |-> e.i]
-        /\ l' = l + 1
+             /\ tprev' = [ray |-> e.ray, p |-> e.p, d |-> e.d, o |-> e.o, i |-> e.i]
+        /\ tpos' = tpos + 1
 Spec == Init /\ [][Next]_vars
 Done == TLCGet("stats").diameter - 1 = Len(Trace) /\ PrintT(<<"DONE", Len(Trace)>>)
 =============================================================================
